@@ -26,6 +26,8 @@ def run(ctx):
     simrules.merged_state_rule(ctx, 'C01.g')
     simrules.integer_digit_rule(ctx, 'C01.h')
     simrules.factoring_rule(ctx, 'C01.i')
+    shared.qudit_blind_dispatch_rule(ctx, 'C01.j', ['cirq-core/cirq/sim/'], floor=2)
+    ctx.decided.append('C01.j simulator code that recognises X/Z power gates by class looks at their dimension (qudit X is not a bit flip)')
     ctx.decided.append('C01.i the linalg factoring helpers behind the product-state container split product tensors along any ordered choice of axes and refuse entangled ones')
     ctx.decided.append('C01.h an integer initial state is split into per-qudit digits with integer arithmetic only')
     ctx.decided.append('C01.g every merged product state is built from the zero-qubit factor that carries the global phase')
